@@ -169,9 +169,7 @@ class VMachine:
         """Advance virtual time; an exception that reached the loop handler raises MpfCrash."""
         try:
             self.t.advance_time_and_run(secs)
-        except BaseException as e:   # noqa
-            if isinstance(e, (KeyboardInterrupt, SystemExit)):
-                raise
+        except Exception as e:   # noqa  (BaseExceptions such as the worker's CaseTimeout pass through)
             raise MpfCrash(repr(e)) from e
 
     def run(self):
